@@ -507,4 +507,120 @@ Proof.
   apply inv_data. apply writes_in_bind; [apply wi_vertex_id|]. intros ?. cbn. intros; repeat split; exact I.
 Qed.
 
+(** ** cut_inner_edge *)
+Ltac wnu := repeat (cbv beta iota; match goal with
+  | |- writes_in _ (vertex_id_tx _ _) => apply wi_vertex_id
+  | |- writes_in _ (edge_id_tx _) => apply wi_edge_id
+  | |- writes_in _ (face_id_tx _ _) => apply wi_face_id
+  | |- writes_in _ (one_link_core _ _) => apply wi_one_link
+  | |- writes_in _ (two_link_core _ _) => apply wi_two_link
+  | |- writes_in _ (one_unlink_core _) => apply wi_one_unlink
+  | |- writes_in _ (two_unlink_core _) => apply wi_two_unlink
+  | |- writes_in _ (vertices_merge _ _ _) => apply wnu_data, wi_vertices_merge
+  | |- writes_in _ (vertices_split _ _ _) => apply wnu_data, wi_vertices_split
+  | |- writes_in _ (merge_attributes _ _ _ _ _) => apply wnu_data, wi_merge_attributes
+  | |- writes_in _ (split_attributes _ _ _ _ _) => apply wnu_data, wi_split_attributes
+  | |- writes_in _ (bind _ _) => apply writes_in_bind; [|intros ?]
+  | |- writes_in _ (Ret _) => exact I
+  | |- writes_in _ (Fail _) => exact I
+  | |- writes_in _ (if ?b then _ else _) => destruct b
+  | |- writes_in _ (rdB _ _) => cbn; intros; exact I
+  | |- writes_in _ (rdV _) => cbn; intros; exact I
+  end).
+
+Lemma wi_two_sew ks l r : writes_in Snu (two_sew n ks l r).
+Proof.
+  unfold two_sew. apply writes_in_bind; [cbn; intros; exact I|]. intros b1l.
+  apply writes_in_bind; [cbn; intros; exact I|]. intros b1r.
+  destruct (b1l =? 0), (b1r =? 0); wnu.
+  repeat match goal with x : option V |- _ => destruct x end; wnu.
+Qed.
+Lemma wi_two_unsew ks l : writes_in Snu (two_unsew n ks l).
+Proof.
+  unfold two_unsew. apply writes_in_bind; [cbn; intros; exact I|]. intros r.
+  apply writes_in_bind; [cbn; intros; exact I|]. intros b1l.
+  apply writes_in_bind; [cbn; intros; exact I|]. intros b1r.
+  destruct (b1l =? 0), (b1r =? 0); wnu.
+Qed.
+
+Lemma inv_two_sew ks l r : ok l -> ok r -> l <> r -> triple E Inv (two_sew n ks l r) (fun _ => Inv) anyf.
+Proof.
+  intros Hl Hr Hne. apply (core_inv _ (fun w => okd n w l /\ okd n w r /\ l <> r)); [apply wi_two_sew| |apply triple_two_sew].
+  intros w HI. split; [eapply ok_now; eauto|]. split; [eapply ok_now; eauto|exact Hne].
+Qed.
+Lemma inv_two_unsew ks l : ok l -> triple E Inv (two_unsew n ks l) (fun _ => Inv) anyf.
+Proof.
+  intros Hl. apply (core_inv _ (fun w => okd n w l)); [apply wi_two_unsew| |apply triple_two_unsew].
+  intros w HI. eapply ok_now; eauto.
+Qed.
+
+Definition Tin (e rd : N) (w : store) : Prop := beta w 2 e = rd /\ beta w 0 e <> 0 /\ beta w 0 rd <> 0.
+Lemma topo_Tin e rd : topo (Tin e rd).
+Proof. intros w w' Ht [Hb _]. unfold Tin in *. rewrite !Hb. exact Ht. Qed.
+
+Theorem cut_inner_edge_wf ks e nd1 nd2 nd3 nd4 nd5 nd6 rd c cnt w' cnt' :
+  wf2 n w0 -> ok e -> ok nd1 -> ok nd2 -> ok nd3 -> ok nd4 -> ok nd5 -> ok nd6 -> nd1 <> nd2 -> nd4 <> nd5 ->
+  beta w0 2 e = rd -> beta w0 0 e <> 0 -> beta w0 0 rd <> 0 ->
+  ~ In e [nd1; nd2; nd3; nd4; nd5; nd6] -> rd <> nd3 -> rd <> nd6 ->
+  run E (cut_inner_edge n ks e nd1 nd2 nd3 nd4 nd5 nd6) c w0 cnt = (Done tt, w', cnt') -> wf2 n w'.
+Proof.
+  intros W0 He H1 H2 H3 H4 H5 H6 H12 H45 Erd Hb0 Hb0r Hne Hr3 Hr6 Hr.
+  assert (HT : triple E (fun w => Inv w /\ Tin e rd w) (cut_inner_edge n ks e nd1 nd2 nd3 nd4 nd5 nd6) (fun _ w => Inv w) anyf).
+  2:{ pose proof (HT c w0 cnt _ _ _ (conj (conj W0 (fun d => eq_refl)) (conj Erd (conj Hb0 Hb0r))) Hr) as Hq. apply Hq. }
+  clear Hr. pose proof (topo_Tin e rd) as HtT.
+  assert (Ne : e <> nd1 /\ e <> nd2 /\ e <> nd3 /\ e <> nd4 /\ e <> nd5 /\ e <> nd6).
+  { cbn in Hne. repeat split; intros ->; apply Hne; auto 10. }
+  destruct Ne as (N1 & N2 & N3 & N4 & N5 & N6).
+  unfold cut_inner_edge.
+  assert (F2 : forall a b, e <> a -> e <> b -> forall w w1, (forall v, ~ (v = XBeta 2 a \/ v = XBeta 2 b) -> w1 v = w v) -> Tin e rd w -> Tin e rd w1).
+  { intros a b Na Nb w w1 Hv (A & B & C). unfold Tin, beta in *.
+    rewrite !Hv; [auto| | |]; intros [X|X]; try discriminate X; injection X as X; congruence. }
+  assert (F1 : forall a b, e <> b -> rd <> b -> forall w w1, (forall v, ~ (v = XBeta 1 a \/ v = XBeta 0 b) -> w1 v = w v) -> Tin e rd w -> Tin e rd w1).
+  { intros a b Nb Rb w w1 Hv (A & B & C). unfold Tin, beta in *.
+    rewrite !Hv; [auto| | |]; intros [X|X]; try discriminate X; injection X as X; congruence. }
+  eapply triple_bind; [apply (with_frame _ _ (Tin e rd) (wi_two_link_at nd1 nd2)); [apply F2; assumption|apply inv_two_link; assumption]|intros ?; cbv beta].
+  eapply triple_bind; [apply (with_frame _ _ (Tin e rd) (wi_one_link_at nd2 nd3)); [apply F1; assumption|apply inv_one_link; assumption]|intros ?; cbv beta].
+  eapply triple_bind; [apply (with_frame _ _ (Tin e rd) (wi_two_link_at nd4 nd5)); [apply F2; assumption|apply inv_two_link; assumption]|intros ?; cbv beta].
+  eapply triple_bind; [apply (with_frame _ _ (Tin e rd) (wi_one_link_at nd5 nd6)); [apply F1; assumption|apply inv_one_link; assumption]|intros ?; cbv beta].
+  apply (triple_rd_T 2 e _ _ (fun x => x = rd)); [lia|exact He|intros w _ (A & _); exact A|]. intros rd' Hrd' ->.
+  (* rd is in use: a null rd contradicts the premise on its predecessor *)
+  apply (triple_pure _ (rd <> 0)).
+  { intros w (([W1 _ _ _ _ _] & _) & (_ & _ & C)) ->. apply C. apply W1. lia. }
+  intros Hrd0. destruct Hrd' as [Z|[Hokrd _]]; [contradiction|].
+  eapply triple_bind.
+  { apply (triple_data_T (Tin e rd)); [|exact HtT]. unfold opt_anchor. destruct (has_kind ks KFA); [|exact I].
+    apply writes_in_bind; [apply wi_face_id|]. intros ?. cbn. intros; repeat split; exact I. }
+  intros lfa. cbv beta.
+  eapply triple_bind.
+  { apply (triple_data_T (Tin e rd)); [|exact HtT]. unfold opt_anchor. destruct (has_kind ks KFA); [|exact I].
+    apply writes_in_bind; [apply wi_face_id|]. intros ?. cbn. intros; repeat split; exact I. }
+  intros rfa. cbv beta.
+  tdatT (Tin e rd).
+  apply (triple_rd_T 0 e _ _ (fun x => x <> 0)); [lia|exact He|intros w _ (_ & A & _); exact A|]. intros b0ld Hb0ld Nb0.
+  destruct Hb0ld as [Z|[Hokb0 _]]; [contradiction|].
+  apply (triple_rd_T 1 e _ _ (fun _ => True)); [lia|exact He|auto|]. intros b1ld Hb1ld _.
+  apply (triple_rd_T 0 rd _ _ (fun x => x <> 0)); [lia|exact Hokrd|intros w _ (_ & _ & A); exact A|]. intros b0rd Hb0rd Nb0r.
+  destruct Hb0rd as [Z|[Hokb0r _]]; [contradiction|].
+  apply (triple_rd_T 1 rd _ _ (fun _ => True)); [lia|exact Hokrd|auto|]. intros b1rd Hb1rd _.
+  tdatT (Tin e rd). tdatT (Tin e rd). tdatT (Tin e rd). tdatT (Tin e rd).
+  match goal with |- triple _ _ (match ?a with _ => _ end) _ _ => destruct a as [v1|]; [|apply triple_retry] end.
+  match goal with |- triple _ _ (match ?a with _ => _ end) _ _ => destruct a as [v2|]; [|apply triple_retry] end.
+  tdatT (Tin e rd).
+  eapply triple_bind; [apply (triple_data_T (Tin e rd)); [cbn; intros; repeat split; exact I|exact HtT]|intros ?; cbv beta].
+  eapply triple_conseq with (P := Inv) (Qd := fun _ => Inv) (Qf := anyf); [intros w [A _]; exact A|auto|auto|].
+  eapply triple_bind with (Qm := fun _ => Inv); [apply (inv_two_unsew ks); exact He|intros ?].
+  eapply triple_bind with (Qm := fun _ => Inv); [apply (inv_one_unsew ks); exact He|intros ?].
+  unsew_step ks Hb1ld.
+  eapply triple_bind with (Qm := fun _ => Inv); [apply (inv_one_unsew ks); exact Hokrd|intros ?].
+  unsew_step ks Hb1rd.
+  eapply triple_bind with (Qm := fun _ => Inv); [apply (inv_two_sew ks); assumption|intros ?].
+  eapply triple_bind with (Qm := fun _ => Inv); [apply (inv_two_sew ks); assumption|intros ?].
+  seq_inv (inv_one_sew ks). seq_inv (inv_one_sew ks). seq_inv (inv_one_sew ks). seq_inv (inv_one_sew ks).
+  seq_inv (inv_one_sew ks). seq_inv (inv_one_sew ks). seq_inv (inv_one_sew ks). seq_inv (inv_one_sew ks).
+  eapply triple_bind with (Qm := fun _ => Inv); [apply inv_data, wi_reattach|intros ?].
+  eapply triple_bind with (Qm := fun _ => Inv); [apply inv_data, wi_reattach|intros ?].
+  match goal with |- triple _ _ (match ?a with _ => _ end) _ _ => destruct a end; [|apply triple_ret'; auto].
+  apply inv_data. apply writes_in_bind; [apply wi_vertex_id|]. intros ?. cbn. intros; repeat split; exact I.
+Qed.
+
 End KernWf.
